@@ -7,7 +7,7 @@ func init() {
 		InitPkgs: []string{"filterutil", "rules"},
 		Jobs: func(tier string) []Job {
 			maxK := 3
-			maxList := 1
+			maxList := 2
 			if tier == "thorough" {
 				maxK = 4
 				maxList = 2
@@ -22,8 +22,8 @@ func init() {
 		},
 		MustReach: []string{"c08.twin", "c08.nottwin", "c08.filter", "c08.filter.twin"},
 		Bounds: map[string]string{
-			"quick":    "twin lemma: two rules, all compared fields symbolic (option words and masks full width, value lists of length 0..1 with symbolic entries, optional $dnsrewrite); filter: k<=3 rules, every subset carrying $badfilter",
-			"thorough": "twin lemma with lists of length 0..2; filter: k<=4 rules",
+			"quick":    "twin lemma: two rules, all compared fields symbolic (option words and masks full width, value lists of length 0..2 with symbolic entries -- $domain/$denyallow lists in any order with duplicates as the parser stores them, $ctag/$client lists sorted with duplicates --, optional $dnsrewrite); filter: k<=3 rules, every subset carrying $badfilter",
+			"thorough": "twin lemma as in quick; filter: k<=4 rules",
 		},
 		Outside:     []string{"verdict invariance through NewMatchingResult/GetDNSBasicRule is checked in C06's harness", "more than 4 rules on one request", "client subnets (only client names are symbolic)"},
 		Assumptions: []string{"InvRule; list entries are one symbolic letter plus a fixed suffix; counterexamples re-parsed from text"},
